@@ -2,7 +2,7 @@
 Require Import ExtrOcamlBasic.
 From Coq Require Import NArith List Bool.
 From ZV.Gen Require Import Gen_Seek.
-From ZV.Seek Require Import SeekTable SeekReader SeekWriter SeekXXH.
+From ZV.Seek Require Import SeekTable SeekReader SeekWriter SeekXXH SeekInput.
 Import ListNotations.
 Local Open Scope N_scope.
 
@@ -39,6 +39,10 @@ Definition x_end_frame := c_end_frame xxh64.
 Definition x_end_stream := c_end_stream xxh64.
 Definition x_xxh64 := xxh64.
 
+(* round 3: the input side (current code: a failed read forgets the position) *)
+Definition x_iinit := iinit.
+Definition x_icall (file : list N) := in_call sk_BUFF file false.
+
 Extraction "Extract/out/c20model.ml"
   x_ser x_whist x_load x_table_of x_o2f x_acc x_num x_frames x_dst0 x_rinit x_read x_read_frame x_clear_trace
-  x_cinit x_compress x_end_frame x_end_stream x_xxh64 firstN skipN lenN.
+  x_cinit x_compress x_end_frame x_end_stream x_xxh64 firstN skipN lenN x_iinit x_icall.
